@@ -33,6 +33,24 @@ def items_named(r, names):
     return {n: json.dumps(v, sort_keys=True) for n, v in out.items()}
 
 
+# pairs on which the unchanged tree differs (known findings): (slug, subject types, sugared body, expanded body)
+KNOWN_PAIRS = [
+    ('C09-selection-loses-tag', ['Sel'], 'Alt ::= CHOICE { num [0] INTEGER, str [1] IA5String }\nSel ::= num < Alt',
+     'Alt ::= CHOICE { num [0] INTEGER, str [1] IA5String }\nSel ::= [0] INTEGER'),
+    ('C09-constraint-on-dummy-type', ['Inst'], 'Tight { T } ::= SEQUENCE { t T (0..5) }\nInst ::= Tight { INTEGER }', 'Inst ::= SEQUENCE { t INTEGER (0..5) }'),
+    ('C09-dummy-value-shadowed', ['Abc'], 'lim INTEGER ::= 7\nZrange { INTEGER:lim } ::= INTEGER (0..lim)\nAbc ::= Zrange { 3 }', 'lim INTEGER ::= 7\nAbc ::= INTEGER (0..3)'),
+    ('C09-same-named-value-arguments', ['Inst'], 'lo INTEGER ::= 2\nhi INTEGER ::= 9\nBounded { INTEGER:lo, INTEGER:hi } ::= INTEGER (lo..hi)\nInst ::= Bounded { lo, hi }',
+     'lo INTEGER ::= 2\nhi INTEGER ::= 9\nInst ::= INTEGER (2..9)'),
+    ('C09-named-number-in-member', ['Ss'], 'Ss ::= SEQUENCE { x INTEGER { peak(20) } (0..peak) }', 'Ss ::= SEQUENCE { x INTEGER { peak(20) } (0..20) }'),
+    ('C09-value-beats-named-number', ['Zed'], 'top INTEGER ::= 3\nZed ::= INTEGER { top(20) } (0..top)', 'top INTEGER ::= 3\nZed ::= INTEGER { top(20) } (0..20)'),
+    ('C09-class-field-in-list-or-set', ['Use'], 'CLS ::= CLASS { &id INTEGER UNIQUE, &Fixed BOOLEAN }\nUse ::= SEQUENCE { l SEQUENCE OF CLS.&id }',
+     'Use ::= SEQUENCE { l SEQUENCE OF INTEGER }'),
+    ('C09-class-field-in-list-or-set', ['Use'], 'CLS ::= CLASS { &id INTEGER UNIQUE, &Fixed BOOLEAN }\nUse ::= SET { id CLS.&id }', 'Use ::= SET { id INTEGER }'),
+    ('C09-non-parameter-reference-inlined', ['Inst'], 'Other ::= INTEGER (0..9)\nTpl { T } ::= SEQUENCE { first T, third Other }\nInst ::= Tpl { BOOLEAN }',
+     'Other ::= INTEGER (0..9)\nInst ::= SEQUENCE { first BOOLEAN, third Other }'),
+]
+
+
 def pair_cases(ck):
     """(family, subject type names, sugared module, expanded module)"""
     rng = ck.rng
@@ -238,6 +256,26 @@ def run(ck):
                              why='%s (%s) compiles differently from its hand-expanded form' % (nme, fam),
                              sugared_items=ia[nme][:500], expanded_items=ib[nme][:500])
                 break
+    # ---- pairs of the known findings: a hit while they differ, nothing when they no longer do
+    kcases = []
+    for slug, subj, sug, exp in KNOWN_PAIRS:
+        kcases += [{'op': 'compile', 'sources': ['Mk DEFINITIONS AUTOMATIC TAGS ::= BEGIN\n%s\nEND\n' % sug]},
+                   {'op': 'compile', 'sources': ['Mk DEFINITIONS AUTOMATIC TAGS ::= BEGIN\n%s\nEND\n' % exp]}]
+    kres = run_harness(kcases)
+    for i, (slug, subj, sug, exp) in enumerate(KNOWN_PAIRS):
+        a, b = kres[2 * i], kres[2 * i + 1]
+        ck.note_case('known-pair:' + sug)
+        ck.count('known-pair')
+        if any('panic' in x or 'crash' in x for x in (a, b)) or not b.get('ok'):
+            ck.count('panic-or-crash')
+            continue
+        same = a.get('ok') and not a.get('warnings') and items_named(a, subj) == items_named(b, subj)
+        if not same:
+            if ck.is_known(slug):
+                ck.known_hit(slug, {'sugared': sug, 'expanded': exp})
+            else:
+                ck.violation('impl-violation', {'sugared': sug, 'expanded': exp}, family='known-pair', type=subj[0],
+                             why='%s compiles differently from its hand-expanded form' % subj[0])
     # ---- COMPONENTS OF
     comps = components_cases(ck)
     cres = run_harness([{'op': 'compile', 'sources': [comp_asn(k, d)]} for k, d in enumerate(comps)])
